@@ -163,9 +163,16 @@ where
     })
 }
 
-fn mk_err() -> expression_engine::Result<Value> {
-    // `Error` is not nameable from outside the crate; this is how a user handler fails
-    Value::None.bool().map(|_| Value::None)
+fn mk_err(k: usize) -> expression_engine::Result<Value> {
+    // `Error` is not nameable from outside the crate; this is how a user handler fails.  The
+    // error variant rotates with the invocation index (which variant is never demanded)
+    match k % 5 {
+        0 => Value::None.bool().map(|_| Value::None),
+        1 => Value::None.decimal().map(|_| Value::None),
+        2 => Value::None.integer().map(|_| Value::None),
+        3 => Value::None.string().map(|_| Value::None),
+        _ => Value::None.list().map(|_| Value::None),
+    }
 }
 
 fn payload_string(p: Box<dyn std::any::Any + Send>) -> String {
@@ -232,7 +239,7 @@ impl Env {
             if f.hits(task, k) {
                 self.push(Ev::Fault { hid, task, kind: f.kind });
                 match f.kind {
-                    FaultKind::Err => return mk_err(),
+                    FaultKind::Err => return mk_err(k),
                     FaultKind::Panic => panic!("{} h{} k{}", INJECTED_PANIC, hid, k),
                 }
             }
@@ -536,7 +543,8 @@ pub fn run_case(case: &Arc<Case>, spec: &SchedSpec) -> RunOutput {
     });
     let rec = Arc::new(StdMutex::new(SchedRecord::default()));
     let mut cfg = shuttle::Config::new();
-    cfg.stack_size = 1 << 19;
+    // (deep re-entrant chains recurse through parser, evaluator and harness a hundred times)
+    cfg.stack_size = if case.tag == "deep-chain" { 1 << 24 } else { 1 << 19 };
     cfg.failure_persistence = shuttle::FailurePersistence::None;
     cfg.max_steps = shuttle::MaxSteps::FailAfter(MAX_STEPS);
     cfg.silence_warnings = true;
